@@ -2,7 +2,7 @@
    spec/router/RouteAction.tla       route actions (header mutations at route / virtual host / router level, prefix / regex /
                                      host rewrite, redirect, direct response) and the effective timeouts: declarative meaning
                                      (Sem*) against the implementation-shaped evaluation (Impl*), 14 defect switches
-   spec/router/RouteActionRetry.tla  the retry decision table, budget, fresh host, never after the reply started; 7 defect switches
+   spec/router/RouteActionRetry.tla  the retry decision table, budget, fresh host, never after the reply started, request actions applied once whatever the attempt; 8 defect switches
    spec/router/RouteActionTrace.tla, RouteActionRetryTrace.tla   TLC validates what the real code did.
    Binding: every case TLC enumerates is configured into an in-process MOSN (HTTP/1) through the router manager and one real
    request is sent: the scripted upstream records what each attempt received / the hosts answer, refuse, close or hang as the
@@ -19,7 +19,7 @@ FAMILIES = ("hdr", "path", "redir", "direct", "tmo")
 ACT_DEFECTS = ("RewriteCaseSensitive", "VhostBeforeRoute", "RouterBeforeVhost", "AppendNoSeparator", "RemoveBeforeAdd", "RegexOverPrefix",
                "PrefixRewriteKeepsPrefix", "AutoHostOverHostRewrite", "AutoHostBeforeMutation", "RedirectKeepsPort",
                "RedirectDropsQuery", "RedirectDefault302", "HeaderOverProtocol", "TryNotDisabled")
-RETRY_DEFECTS = ("RetryOnOverflow", "RetryOnIgnored", "StatusListIgnored", "BudgetOffByOne", "BudgetIsNumRetries",
+RETRY_DEFECTS = ("FinalizeOnRetry", "RetryOnOverflow", "RetryOnIgnored", "StatusListIgnored", "BudgetOffByOne", "BudgetIsNumRetries",
                  "SameHostRetry", "RetryAfterResponse")
 
 
@@ -66,6 +66,12 @@ def act_signature(e, kind):
 
 def retry_signature(runev, kind, rt=None):
     pol = (runev or {}).get("pol", {})
+    if kind.startswith(("attempt-1:", "retried-attempt:", "reply:")):    # actions seen by an attempt / on the single reply
+        act = (runev or {}).get("act", {})
+        if "headers" in kind:
+            lv = act.get("rlv" if kind.startswith("reply:") else "lv")
+            return "C17:retry:%s:%s" % (kind, levels_class(lv) if lv else "levels=")
+        return "C17:retry:%s:%s" % (kind, "prefix_rewrite" if act.get("pr") else "regex_rewrite" if act.get("rr", "none") != "none" else "plain")
     if kind == "no-reply":      # the policy matters less than how far the request got
         return "C17:retry:no-reply:after-%d-attempts" % sum(1 for e in (rt or []) if e["ev"] == "att")
     cls = "retry_on=%s:codes=%s" % (str(pol.get("on")).lower(), "listed" if pol.get("codes") else "none")
@@ -138,6 +144,24 @@ def run(ctx):
     else:
         retry = retry_all + retry_long
     rng.shuffle(retry)
+    # the two halves combined: the route of a retry run also carries request- and response-side actions (a VERIF_SEED
+    # draw from the header cases and from RouteAction's RetryRewrites): every attempt must receive Sem(actions, request)
+    rxm = {x["rr"]: x for x in menu[0]["rx"]}
+    hdrs = [x["c"] for x in fam["hdr"]]
+    nonidem = [h for h in hdrs if any(op["a"] for lvl in h["lv"].values() for op in lvl["add"])]
+    rws = sorted(menu[0]["retryrw"], key=lambda x: json.dumps(x, sort_keys=True))
+    withact = []
+    for i, x in enumerate(retry):
+        if i % 4 == 3:                       # every fourth run keeps a plain route
+            withact.append(x)
+            continue
+        h = rng.choice(nonidem if i % 2 == 0 else hdrs)
+        rh = rng.choice(hdrs)
+        rw = rng.choice(rws)
+        a = dict(lv=h["lv"], hin=h["hin"], rlv=rh["lv"], rhin=rh["hin"], pr=rw["pr"], rr=rw["rr"], path=menu[0]["retrypath"],
+                 rxp=rxm.get(rw["rr"], {}).get("pattern", ""), rxs=rxm.get(rw["rr"], {}).get("subst", ""))
+        withact.append(dict(x, act=a))
+    retry = withact
 
     # ---------- 2. real code: record
     binary = vlib.go_build("c17")
@@ -232,9 +256,9 @@ def run(ctx):
             outs[e["o"]] = outs.get(e["o"], 0) + 1
     other = sum(v for k, v in outs.items() if k.startswith("other"))
     ctx.cov["traces_validated_against_impl"] = nact + nruns
-    ctx.cov["evaluations"] = nact + sum(1 for e in retry_evs if e["ev"] in ("att", "out", "fin", "tmo"))
+    ctx.cov["evaluations"] = nact + sum(1 for e in retry_evs if e["ev"] in ("att", "out", "fin", "tmo", "rcv"))
     ctx.cov["distinct_nontrivial"] = len(set(json.dumps([e.get("c"), e.get("rc"), e.get("via")], sort_keys=True) for e in act_evs if e["ev"] != "rx")) + \
-        len(set(json.dumps([e["pol"], e["script"], e["cluster"]], sort_keys=True) for e in retry_evs if e["ev"] == "run"))
+        len(set(json.dumps([e["pol"], e["script"], e["cluster"], e.get("act")], sort_keys=True) for e in retry_evs if e["ev"] == "run"))
     by = {}
     for e in act_evs:
         by[e["ev"] + (":" + e["via"] if e["ev"] == "tmo" else "")] = by.get(e["ev"] + (":" + e["via"] if e["ev"] == "tmo" else ""), 0) + 1
@@ -259,7 +283,7 @@ def run(ctx):
                        "protocol values incl. malformed (component: all; HTTP/1 and bolt end to end: the ones the protocol can express). Retry: policy (retry_on x "
                        "num_retries {0,2,5} x status list {none,[503],[404,500]}) x outcome scripts over {200,404,500,503,connect failure, "
                        "termination, per-try timeout, global timeout, overflow} to length %d in canonical form (last repeats), plus "
-                       "num_retries {9,10} with persistent outcomes; quick: all scripts of length <=2, a VERIF_SEED sample of the rest" % (3 if q else 4))
+                       "num_retries {9,10} with persistent outcomes; three of four retry runs use a route that also carries a drawn header case on the request and on the response side and a rewrite from RetryRewrites (prefix_rewrite / regex_rewrite whose output matches again), and every attempt's received request is checked; quick: all scripts of length <=2, a VERIF_SEED sample of the rest" % (3 if q else 4))
     ctx.assumptions += [
         "HTTP/1 downstream and upstream, plain TCP (current scheme http); the protocol-supplied global timeout is bolt's frame timeout field (end to end through a bolt listener) and, at component level, the proxy_global_timeout / proxy_try_timeout variables given to parseProxyTimeout",
         "header values are plain strings (no %variable% formatters); regex_rewrite limited to the menu of RouteAction.tla, whose hand-written meaning is cross-checked against Go regexp by the driver",
